@@ -19,6 +19,7 @@ import (
 	"os"
 	"runtime/debug"
 	"sort"
+	"strings"
 	"sync"
 	"sync/atomic"
 	"time"
@@ -777,7 +778,7 @@ func (o *obs) checkHead(db kaidb.Database, gdoc *genesis.Genesis, saved *stateSn
 	}
 	ls := snapState(&loaded)
 	for _, d := range cmpState(saved, ls) {
-		if phase == "after-rewind" && d.Key == "state-after-reload:last-height-validators-changed" {
+		if phase == "after-rewind" && strings.HasSuffix(d.Key, ":last-height-validators-changed") {
 			// not one of the fields the property lists, and not stable for a non-head state by construction of the
 			// hash-keyed records (a later save of a set with the same hash rewrites it): observed, not judged
 			run.Count("lhvc_differs_after_rewind", 1)
@@ -800,7 +801,7 @@ func (o *obs) checkHead(db kaidb.Database, gdoc *genesis.Genesis, saved *stateSn
 	}
 	as := snapState(&again)
 	for _, d := range cmpState(saved, as) {
-		if phase == "after-rewind" && d.Key == "state-after-reload:last-height-validators-changed" {
+		if phase == "after-rewind" && strings.HasSuffix(d.Key, ":last-height-validators-changed") {
 			continue
 		}
 		o.violation(d.Key+suffix(phase), fmt.Sprintf("[%s, LoadStateFromDBOrGenesisDoc] %s", phase, d.What), nil)
@@ -1002,8 +1003,14 @@ func genesisCase(c *core.Case) {
 		want[keyAddrs[v.Key]] = v.Power
 	}
 	got := w.saved[0].Cur
-	if len(got.Vals) != len(want) {
-		c.Run.Inconclusive(fmt.Sprintf("genesis case %d: genesis state has %d validators, script %d", c.I, len(got.Vals), len(want)))
+	okWorkload := len(got.Vals) == len(want)
+	for _, v := range got.Vals {
+		if want[v.Addr] != v.Power {
+			okWorkload = false
+		}
+	}
+	if !okWorkload { // the workload did not produce the genesis state it meant to: nothing can be attributed
+		c.Run.Inconclusive(fmt.Sprintf("genesis case %d: genesis state %v does not have the script's validators", c.I, got.dump()))
 	}
 	c.Run.Nontrivial(fmt.Sprintf("genesis|%d|%d", c.I, len(sc.Genesis)))
 	c.Run.Distinct("genesis_size", fmt.Sprint(len(sc.Genesis)))
@@ -1318,6 +1325,7 @@ func Main() {
 	r.SetRule("case = one chain of consensus states produced by BlockExecutor.ApplyBlock over a scripted application (1..9 validators, 5 power classes, validator schedule by height) on a real memorydb (1/8 of the long chains: LevelDB), each state deep-copied at save time and compared field by field with Store.Load()/LoadStateFromDBOrGenesisDoc/LoadValidators/LoadConsensusParams after every save, after PruneState ranges, after restarts and after head rewinds; group fullstack does the same over the real BlockChain+BlockOperations+staking genesis; non-trivial = the chain contains at least one height where the proposer priorities moved under an unchanged set hash, or a validator-set change; distinct by (group, case, class, length, changes)")
 	r.Assume("prune ranges stay inside [0, head]: PruneState(from,to) with to > head removes the head state itself, which is then not a kept state")
 	r.Assume("a head rewind is modelled as BlockChain.setHeadBeyondRoot does it: only the head-block marker moves back; LastHeightValidatorsChanged of a non-head state is observed but not judged (not a listed field)")
+	r.Assume("the state of height 0 counts as kept after every prune (PruneState documents that it never prunes height 0); the designated proposer is compared by address; LastBlockTotalTx and LastHeightConsensusParamsChanged are not among the listed fields and are not compared")
 	r.Cases("corpus", len(corpusScripts()), core.Opts{Workers: 8}, corpusCase)
 	r.Cases("genesis", r.N(60, 2000), core.Opts{Workers: 8}, genesisCase)
 	r.Cases("short", r.N(400, 14000), core.Opts{Workers: 16}, shortCase)
